@@ -16,6 +16,7 @@ CollisionWhys == {"C19:request-reported-by-more-than-one-nack", "C19:response-de
 \* sub: tokens submitted; srv / resp / nack: sequences of tokens seen by the server handler / response handler / NACK handler
 Count(q, x) == Cardinality({i \in 1..Len(q) : q[i] = x})
 Undisturbed == cfg.ndrops = 0 /\ cfg.rel = 0
+IsCon(m) == cfg.nonq # 9 /\ cfg.nonq # m          \* the statement promises a NACK per queued CONFIRMABLE request
 Why(e) ==
   CASE e.e = "SrvReq" ->
          IF e.tok = <<153>> THEN "C19:cleartext-request-reached-the-server-handler-of-a-dtls-endpoint"
@@ -41,7 +42,7 @@ Why(e) ==
          ELSE ""
     [] e.e = "End" ->
          IF cfg.nq = 0 THEN ""
-         ELSE IF ~Match(cfg) /\ \E m \in sub : Count(nack, m) # 1 THEN "C19:queued-request-not-reported-by-exactly-one-nack"
+         ELSE IF ~Match(cfg) /\ \E m \in sub : IsCon(m) /\ Count(nack, m) # 1 THEN "C19:queued-request-not-reported-by-exactly-one-nack"
          ELSE IF Match(cfg) /\ Undisturbed /\ \E m \in sub : Count(srv, m) # 1 \/ Count(resp, m) # 1
               THEN "C19:queued-request-not-delivered-exactly-once-after-the-handshake"
          ELSE IF Match(cfg) /\ \E m \in sub : Count(resp, m) + Count(nack, m) = 0 THEN "C19:queued-request-neither-answered-nor-reported"
@@ -49,7 +50,7 @@ Why(e) ==
     [] e.e = "Hang" -> "C19:endpoints-never-became-quiet"
     [] e.e = "Crash" -> "C19:run-aborted-or-sanitizer-report"
     [] OTHER -> ""
-Init == /\ l = 1 /\ rej = << >> /\ cur = -1 /\ skip = TRUE /\ cfg = [nq |-> 0, obs |-> 0, tk2 |-> 0] /\ sub = {} /\ srv = << >> /\ resp = << >> /\ nack = << >>
+Init == /\ l = 1 /\ rej = << >> /\ cur = -1 /\ skip = TRUE /\ cfg = [nq |-> 0, obs |-> 0, tk2 |-> 0, nonq |-> 0] /\ sub = {} /\ srv = << >> /\ resp = << >> /\ nack = << >>
         /\ nexec = 0 /\ nmatch = 0 /\ nmis = 0 /\ known = {}
 Consume ==
   /\ l <= Len(TraceLog)
